@@ -26,7 +26,8 @@ VARIANTS = {
                      dict(param_B=4, param_b=4, param_B_prime=8, param_b_prime=8), dict()],
     "CT14.Pi": [dict(), dict(param_k=16, param_k_prime=16, param_l=16, param_identifier_size=8)],
     "ANSS16.Scheme3": [dict(), dict(param_lambda=16, param_k=16, param_k_prime=16, param_l=8, param_l_prime=16, param_identifier_size=8)],
-    "DP17.Pi": [dict(), dict(param_lambda=16, param_identifier_size=4)],
+    "DP17.Pi": [dict(), dict(param_lambda=16, param_identifier_size=4, param_L=2), dict(param_lambda=16, param_identifier_size=4),
+                dict(param_L=3), dict(param_L=2, param_actual_storage_level_ratio=0.5)],
 }
 PROFILES = [[1], [2], [3], [4], [1, 1], [5], [8], [9], [3, 4, 5], [16], [17], [1, 2, 4, 8], [7, 1], [2, 2, 2, 2], [6, 6], [12],
             [1] * 12, [5, 7], [15, 1], [3, 3, 3, 3, 3, 1], [33], [20, 13], [64], [65, 1]]
@@ -149,6 +150,43 @@ def rt_c01_c02(rnd, tier):
                         st.name, len(got), len(want), "stored" if w in db else "absent", prof), scheme=st.name, profile=prof,
                         config={k: v for k, v in st.cfg.items() if k.startswith("param")})
                     break
+    # width boundaries: counters, pointers and positions are stored in ceil(log256(.)) bytes -- databases whose number of
+    # blocks / postings / keywords sits exactly at 255, 256, 257 (thorough: also 65535, 65536)
+    wide = [[1] * 255, [1] * 256, [1] * 257, [2] * 128, [3] * 85]
+    for st in setups(tier):
+        if st.name.startswith("CGKO06") or (st.name == "DP17.Pi" and tier != "thorough"):
+            continue      # PRP-based schemes are too slow for hundreds of postings in the quick tier (covered by `thorough`)
+        profs = list(wide)
+        if tier == "thorough" and st.name.startswith("CJJ14"):
+            profs += [[1] * 65535, [1] * 65536]
+        for prof in profs:
+            if not st.fits(prof):
+                continue
+            db = st.make_db(rnd, prof)
+            try:
+                sch, cfg = st.scheme(db)
+                key = sch.KeyGen()
+                edb = sch.EDBSetup(key, copy.deepcopy(db))
+            except Exception as ex:
+                _viol(viol, "%s: EDBSetup raised %s for %d lists of length %d" % (st.name, type(ex).__name__, len(prof), prof[0]),
+                      scheme=st.name, profile=[len(prof), prof[0]])
+                continue
+            ws = list(db)
+            for w in ws[:3] + ws[-3:] + [ws[len(ws) // 2], b"\x01absent-kw"]:
+                cases += 1
+                want = expected(st.name, db.get(w, []))
+                try:
+                    got = as_result(sch.Search(edb, sch.TokenGen(key, w)))
+                except Exception as ex:
+                    _viol(viol, "%s: Search raised %s for a %s keyword (%d lists of length %d)" % (
+                        st.name, type(ex).__name__, "stored" if w in db else "absent", len(prof), prof[0]), scheme=st.name,
+                        profile=[len(prof), prof[0]], config={k: v for k, v in st.cfg.items() if k.startswith("param")})
+                    break
+                if got != want:
+                    _viol(viol, "%s: Search returned %d identifiers instead of %d for a %s keyword (%d lists of length %d)" % (
+                        st.name, len(got), len(want), "stored" if w in db else "absent", len(prof), prof[0]), scheme=st.name,
+                        profile=[len(prof), prof[0]], config={k: v for k, v in st.cfg.items() if k.startswith("param")})
+                    break
     # long histories on one scheme object: tokens requested for many other keywords must not change later answers
     for st in setups(tier):
         prof = [2, 3]
@@ -177,7 +215,8 @@ def rt_c01_c02(rnd, tier):
             except Exception as ex:
                 _viol(viol, "%s: long search history raised %s" % (st.name, type(ex).__name__), scheme=st.name)
     return {"cases": cases, "bound": "9 schemes x %s configurations x %d list-length profiles (N <= %d), every stored keyword + "
-                                     "prefix/suffix/near-duplicate/random absent keywords" % (
+                                     "prefix/suffix/near-duplicate/random absent keywords; width boundaries 255/256/257 lists "
+                                     "(thorough: 65535/65536 for CJJ14)" % (
                                          "all" if tier == "thorough" else "2", len(PROFILES if tier == "thorough" else PROFILES[:20]),
                                          max(sum(p) for p in PROFILES)), "violations": viol}
 
@@ -286,9 +325,17 @@ def rt_c05(rnd, tier):
     """C05: databases with the same public size parameter give identically shaped indexes; padded tables have one key length and
     one value length"""
     viol, cases = [], 0
-    for st in setups(tier):
+    # next to the usual configurations: identifier sizes that are whole cipher blocks (16, 32), where PKCS7 adds a full block
+    aligned = []
+    for name in SCHEMES:
+        for sz in ((16,) if tier != "thorough" else (16, 32)):
+            try:
+                aligned.append(Setup(name, dict(VARIANTS[name][0], param_identifier_size=sz)))
+            except Exception:
+                pass
+    for st in setups(tier) + aligned:
         groups = {}
-        for prof in profiles(tier, st.name):
+        for prof in (profiles(tier, st.name) if st not in aligned else [p for p in profiles(tier, st.name) if sum(p) <= 17]):
             if not st.fits(prof):
                 continue
             db = st.make_db(rnd, prof)
@@ -316,7 +363,7 @@ def rt_c05(rnd, tier):
                     st.name, groups[key][1], prof, key[0]), scheme=st.name, profile=prof, other=groups[key][1],
                     config={k: v for k, v in st.cfg.items() if k.startswith("param")})
             groups.setdefault(key, (sh, prof))
-    return {"cases": cases, "bound": "9 schemes x 2 configurations x up to %d list-length profiles grouped by size parameter" % len(PROFILES),
+    return {"cases": cases, "bound": "9 schemes x (2 configurations + block-aligned identifier sizes) x up to %d list-length profiles grouped by size parameter" % len(PROFILES),
             "violations": viol}
 
 
@@ -358,24 +405,43 @@ def rt_c06(rnd, tier):
                         _viol(viol, "%s: table %d (%d entries) is not in label order (list lengths %s)" % (st.name, ti, len(ks), prof),
                               scheme=st.name, profile=prof)
                         break
-    # array placement: the slots Search reads differ between two setups (same key where placement is random)
+    # array placement: the slots Search reads differ between two setups on ONE scheme object (same key where placement is
+    # random: PiPtr, Pi2Lev, DP17; a fresh key where it is key-derived: SSE1)
     class Rec(list):
         def __getitem__(self, i):
-            self.seen.add(i)
+            self.seen.add((self.tag, i))
             return list.__getitem__(self, i)
+
+    def record(edb, seen):
+        for slot in type(edb).__slots__:
+            v = getattr(edb, slot)
+            if isinstance(v, list) and not isinstance(v, Rec):
+                r = Rec(v)
+                r.tag, r.seen = slot, seen
+                setattr(edb, slot, r)
+            elif isinstance(v, dict) and v and all(isinstance(x, list) for x in v.values()):
+                for k in list(v):
+                    r = Rec(v[k])
+                    r.tag, r.seen = (slot, k), seen
+                    v[k] = r
     for st in setups(tier):
-        if st.name not in ("CJJ14.PiPtr", "CJJ14.Pi2Lev"):
+        if st.name not in ("CJJ14.PiPtr", "CJJ14.Pi2Lev", "CGKO06.SSE1", "DP17.Pi"):
             continue
         c = st.cfg
-        B_ = c["param_B"]
         if st.name == "CJJ14.PiPtr":
+            B_ = c["param_B"]
             profs = [[B_ * 8] * 3, [B_ * 5, B_ * 6, B_ * 7, B_ * 3]]
-        else:
+        elif st.name == "CJJ14.Pi2Lev":
+            B_ = c["param_B"]
             med = min(B_ * c["param_b_prime"], 40)            # largest medium list (capped)
             big = B_ * c["param_b_prime"] + 1
             profs = [[med] * 6]
             if big < 70:
                 profs += [[big + 3] * 3, [big + 3, big + 5, med, med]]
+        elif st.name == "CGKO06.SSE1":
+            profs = [[4, 4, 4, 3], [2] * 8]
+        else:
+            profs = [[1] * 30, [2] * 30]        # few buckets per level: many single-chunk keywords are needed
         for prof in profs:
             if not st.fits(prof):
                 continue
@@ -383,28 +449,43 @@ def rt_c06(rnd, tier):
             sch, cfg = st.scheme(db)
             key = sch.KeyGen()
             reads = []
-            for rep in range(2):
-                edb = sch.EDBSetup(key, copy.deepcopy(db))
-                rec = Rec(edb.A)
-                rec.seen = set()
-                edb.A = rec
-                per = {}
-                for w in db:
-                    rec.seen = set()
-                    sch.Search(edb, sch.TokenGen(key, w))
-                    per[w] = frozenset(rec.seen)
-                reads.append(per)
+            try:
+                for rep in range(2):
+                    if st.name == "CGKO06.SSE1" and rep:
+                        key = sch.KeyGen()
+                    edb = sch.EDBSetup(key, copy.deepcopy(db))
+                    seen = set()
+                    record(edb, seen)
+                    per = {}
+                    for w in db:
+                        seen.clear()
+                        sch.Search(edb, sch.TokenGen(key, w))
+                        per[w] = frozenset(seen)
+                    reads.append(per)
+            except Exception:
+                continue
             cases += 1
             nblocks = sum(len(x) for x in reads[0].values())
-            ways = math.factorial(nblocks)
-            for x in reads[0].values():
-                ways //= math.factorial(len(x))
-            # number of ways to hand the slots out to the keywords: a chance coincidence has probability 1/ways
-            if nblocks >= 12 and ways >= 10 ** 8 and reads[0] == reads[1]:
-                _viol(viol, "%s: %d array blocks, but a second EDBSetup made Search read exactly the same slots of A for every keyword "
-                            "(list lengths %s)" % (st.name, nblocks, prof), scheme=st.name, profile=prof)
-    return {"cases": cases, "bound": "6 ordered-table schemes x 2 configurations x 7 databases x 3 keyword orders; PiPtr/Pi2Lev slot sets of "
-                                     "two setups compared", "violations": viol}
+            if st.name == "DP17.Pi":
+                # every chunk picks one of the buckets of its level at random: a keyword with q chunks repeats its bucket set
+                # with probability <= q! / nb^q
+                nb = min(len(x) for x in edb.A_dict.values())
+                p = 1.0
+                for x in reads[0].values():
+                    p *= min(1.0, math.factorial(len(x)) / float(nb) ** len(x))
+                unlikely = nblocks >= 12 and p < 1e-8
+            else:
+                ways = math.factorial(nblocks)
+                for x in reads[0].values():
+                    ways //= math.factorial(len(x))
+                # number of ways to hand the slots out to the keywords: a chance coincidence has probability <= 1/ways
+                unlikely = nblocks >= 12 and ways >= 10 ** 8
+            if unlikely and reads[0] == reads[1]:
+                _viol(viol, "%s: %d array blocks, but a second EDBSetup on the same scheme object%s made Search read exactly the same "
+                            "slots for every keyword (list lengths %s)" % (st.name, nblocks, " under a fresh key" if st.name == "CGKO06.SSE1" else "", prof),
+                      scheme=st.name, profile=prof)
+    return {"cases": cases, "bound": "6 ordered-table schemes x 2 configurations x 7 databases x 3 keyword orders; PiPtr/Pi2Lev/SSE1/DP17 slot sets of "
+                                     "two setups on one scheme object compared", "violations": viol}
 
 
 def rt_c07(rnd, tier):
